@@ -107,6 +107,15 @@ def validate_fs_traces(rep, traces: List[Dict[str, Any]], name: str = "fstrace")
     for t in traces:
         root_entry = [["/" + x, "dir", ""] for x in []]
         doc.append({"init": t["init"], "events": to_fs_events(t["events"]), "final": t["final"]})
+    # binding self-test: a copy of a recorded trace whose final tree lacks one entry must be flagged
+    n_real = len(doc)
+    donor = [t for t in doc if len(t["final"]) > len(t["init"])]
+    if donor:
+        import copy
+        c = copy.deepcopy(donor[0])
+        gone = [e for e in c["final"] if e not in c["init"]][-1]
+        c["final"] = [e for e in c["final"] if e != gone]
+        doc.append(c)
     d = common.stage_spec({}, name)
     tf = os.path.join(d, "fstraces.json")
     with open(tf, "w") as f:
@@ -117,6 +126,13 @@ def validate_fs_traces(rep, traces: List[Dict[str, Any]], name: str = "fstrace")
     done = {x["tid"]: x for x in r.printed("DONE")}
     if len(done) != len(doc):
         raise MachineryError("FsTrace judged %d of %d traces" % (len(done), len(doc)))
+    if len(doc) > n_real:
+        x = done[len(doc)]
+        if not x["bad"] and x["tree_ok"]:
+            raise MachineryError("binding self-test: FsTrace accepted a recorded trace whose final tree was altered")
+        rep.cov["corrupted_fs_traces_rejected"] = 1
+        del done[len(doc)]
+        doc = doc[:n_real]
     nbad = 0
     for (tid, x) in sorted(done.items()):
         if x["bad"] or not x["tree_ok"]:
